@@ -59,6 +59,7 @@ type loopObj struct {
 	mp        *multicast.UDPPeer // mpeer
 	sab       []int              // descriptors held by a sabotage
 	packets   bool               // FIFO in packet mode
+	adopted   int                // listener: accepted connections that became objects (adopt)
 	peer      net.Conn           // tcp/adapter peer
 	peerFd    int                // fifo peer end (-1 if closed)
 	peerPC    *net.UDPConn       // packet peer
@@ -557,7 +558,9 @@ func (lw *loopWorld) exec(f []string) {
 		lw.ioc.Dispatched = atoi(f[1])
 		lw.ev("ret")
 	case "peer":
-		lw.peer(f)
+		if lw.objs[atoi(f[1])] != nil {
+			lw.peer(f)
+		}
 	case "poll":
 		lw.ev("call poll d=%d", lw.depth)
 		n, err := lw.ioc.PollOne()
@@ -959,6 +962,31 @@ func (lw *loopWorld) finish() {
 	}
 }
 
+// adopt: "" = nothing to adopt (no event), otherwise "ok".
+func (lw *loopWorld) adopt(k, j int) string {
+	l := lw.objs[k]
+	if l == nil || l.kind != "listener" || lw.objs[j] != nil || l.adopted >= len(l.accepted) {
+		return ""
+	}
+	c := l.accepted[l.adopted]
+	var p net.Conn
+	for _, pc := range l.peerConns {
+		if pc.LocalAddr().String() == c.RemoteAddr().String() {
+			p = pc
+		}
+	}
+	if p == nil {
+		return ""
+	}
+	l.adopted++
+	lw.objs[j] = &loopObj{kind: "tcp", conn: c, peer: p, peerFd: -1}
+	_ = syscall.SetsockoptInt(c.RawFd(), syscall.SOL_SOCKET, syscall.SO_SNDBUF, 4096)
+	if tc, ok := p.(*net.TCPConn); ok {
+		_ = tc.SetReadBuffer(4096)
+	}
+	return "ok"
+}
+
 func (lw *loopWorld) newObj(k int, kind string) string {
 	o := &loopObj{kind: kind, peerFd: -1}
 	lw.objs[k] = o
@@ -1183,6 +1211,12 @@ func loopRun(script []string, w *bufio.Writer) {
 		switch f[0] {
 		case "obj":
 			fmt.Fprintf(w, "< obj %s %s %s\n", f[1], f[2], lw.newObj(atoi(f[1]), f[2]))
+		case "adopt":
+			// adopt <listener> <j>: the first connection the listener's accepts handed out that is not yet an object becomes
+			// object j (kind tcp), with the harness's end of that connection as its peer
+			if res := lw.adopt(atoi(f[1]), atoi(f[2])); res != "" {
+				fmt.Fprintf(w, "< obj %s tcp %s\n", f[2], res)
+			}
 		case "prog":
 			id := atoi(f[1])
 			body := strings.Join(f[2:], " ")
@@ -1237,6 +1271,13 @@ func loopGen(r *rng, maxops int, w *bufio.Writer) {
 	}
 	if r.intn(12) == 0 {
 		add("regular")
+	}
+	if r.intn(4) == 0 {
+		// a connection handed out by AsyncAccept, used like a dialled one from here on
+		add("listener")
+		l := len(objs)
+		fmt.Fprintf(w, "! peer %d connect\n! accept %d op=9\n! adopt %d %d\n", l, l, l, l+1)
+		objs = append(objs, loopGenObj{l + 1, "tcp"})
 	}
 	pickKind := func(kinds ...string) (loopGenObj, bool) {
 		var c []loopGenObj
@@ -1467,6 +1508,15 @@ func loopEnum(args []string, w *bufio.Writer) {
 	// more queued connections than the limit: the chain nests 32 callbacks, the 33rd accept is deferred
 	emit("obj 1 listener", strings.Repeat("peer 1 connect\n", 40), "accept 1 op=11 chain=45", "pending", "poll", "poll", "pending")
 	emit("obj 1 packet", strings.Repeat("peer 1 send 4\n", 40), "recvfrom 1 8 op=11 chain=45", "pending", "poll", "poll", "pending")
+	// connections handed out by AsyncAccept / used like dialled ones (adopt: the accepted connection becomes object 2)
+	acc := []string{"obj 1 listener", "peer 1 connect", "accept 1 op=11", "adopt 1 2"}
+	emit(append(acc, "peer 2 write 10", "readall 2 16 op=12", "pending", "poll", "peer 2 write 6", "poll", "pending")...)
+	emit(append(acc, "readall 2 16 op=12", "peer 2 write 4", "peer 2 close", "poll", "pending")...)
+	emit(append(acc, "read 2 8 op=12", "write 2 70000 op=13", "pending", "peer 2 write 3", "poll", "peer 2 drain", "poll", "peer 2 drain", "poll", "pending")...)
+	emit(append(acc, "peer 2 write 90", "read 2 2 op=12 chain=40", "poll", "poll", "pending")...)
+	emit(append(acc, "writeall 2 200000 op=12", "pending", "poll", "peer 2 drain", "poll", "peer 2 drain", "poll", "pending")...)
+	emit(append(acc, "read 2 8 op=12", "cancel 2", "pending", "read 2 8 op=13", "close 2", "peer 2 write 4", "poll", "pending")...)
+	emit("obj 1 listener", "accept 1 op=11", "peer 1 connect", "poll", "adopt 1 2", "peer 2 write 5", "setdisp 32", "read 2 4 op=12", "setdisp 0", "pending", "poll", "pending")
 	// a descriptor that keeps message boundaries behind the file type (FIFO in packet mode): every read completes at once and
 	// short (one packet) while more is queued
 	for _, n := range []int{34, 40, 70} {
